@@ -565,6 +565,34 @@ func runCollCase(c *collCase, tape *Tape, out *RunOut) []Violation {
 
 	resolveAll := func(bp *builtProv, when string, first bool) {
 		mm := bp.model
+		if !first {
+			// a scope created now on the earlier provider runs exactly the initializers of ITS snapshot
+			invBefore := len(h.invs)
+			sc, err := bp.p.CreateScope(nil)
+			ran := map[int]int{}
+			for _, inv := range h.invs[invBefore:] {
+				ran[inv.Reg]++
+			}
+			if err == nil {
+				for _, p := range mm.order {
+					r := mm.regs[p.Reg]
+					if r == nil || !(r.Form == FVoid || r.Form == FVoidErr) || r.Life != LScoped || p.OutIdx >= 0 {
+						continue
+					}
+					if ran[r.ID] != 1 && !anyTouched(mm) {
+						add("C17.snapshot", "initializer", "%s: scope created on the earlier provider: scoped initializer r%d of its snapshot ran %d times", when, r.ID, ran[r.ID])
+					}
+				}
+				sc.Close()
+			} else if !anyTouched(mm) && buildModel(mm.config()).V.OK() {
+				add("C17.snapshot", "create-scope", "%s: CreateScope on the earlier provider failed after later edits of the collection: %v", when, firstLine(err))
+			}
+			for reg := range ran {
+				if mm.gone(reg) {
+					add("C17.removed", "ctor-ran-late", "%s: scope created on the earlier provider ran the constructor of r%d, which its snapshot does not contain", when, reg)
+				}
+			}
+		}
 		check := func(id Ident) {
 			var v any
 			var err error
@@ -721,6 +749,14 @@ func runCollCase(c *collCase, tape *Tape, out *RunOut) []Violation {
 			for _, inv := range h.invs[invBefore:] {
 				if m.gone(inv.Reg) {
 					add("C17.removed", "ctor-ran", "%s: constructor of r%d ran although the registration was removed or rejected", when, inv.Reg)
+				}
+			}
+			if anyTouched(m) {
+				// what the sibling outputs of a partially removed registration become is unspecified, but they
+				// are still registered and their constructor still has its dependencies: a required one that
+				// nobody registers (even counting the removed outputs as present) cannot be accepted
+				if tm := buildModel(m.config()); tm.V.Missing && !tm.V.Cycle && !tm.V.Conflict && !tm.V.Dup && err == nil {
+					vs = append(vs, Violation{Prop: "C08", Rule: "C08.found", Shape: "rebuild/partially-removed", Msg: fmt.Sprintf("%s: a required dependency of a still registered constructor is not registered but Build succeeded", when)})
 				}
 			}
 			if !anyTouched(m) {
